@@ -24,6 +24,16 @@ def check(case):
     got = run_case(case)
     if not got["ok"]:
         sig["exc_type"] = got["exc_type"]
+        if got["exc_type"] in ("NotImplementedError", "ImportError"):
+            return None  # a documented "not supported" (C19 decides whether it is legitimate)
+        if got["exc_type"] in ALLOWED_EXC and case.get("chunks") is not None:
+            # a ValueError is a rejection of the *input*; the same input in memory must then be rejected as well,
+            # otherwise the chunked call fails to give the per-slice results the property demands
+            from ..rtc.reduce_case import eager_variant
+
+            if not run_case(eager_variant(case))["ok"]:
+                return None
+            return {"case": case, "why": f"chunked call raised {got['exc_type']}: {got['exc_msg']} while the same call on in-memory data succeeds", "sig": sig}
         if got["exc_type"] in ALLOWED_EXC:
             return None
         return {"case": case, "why": f"raised {got['exc_type']}: {got['exc_msg']}", "sig": sig}
@@ -90,15 +100,15 @@ def bounded_cases(ctx: Ctx):
                     ax = list(sub)
                     if i % 2:
                         ax = [a - len(ashape) for a in ax]  # negative form
-                    if i % 4 == 3 and func not in ("nanfirst", "argmax"):
-                        ax = ax[::-1]  # any order
+                    if (i // 2) % 2 == 1 and func not in ("nanfirst", "argmax"):
+                        ax = ax[::-1]  # any order (for eager and for chunked inputs alike)
                     c = dict(array=enc(vals), by=[enc(lab)], func=func, expected_groups=[[10.0, 20.0, 30.0]], axis=ax if len(ax) > 1 else ax[0],
                              fill_value=(False if func == "any" else (-1 if func == "argmax" else (0 if func == "count" else "nan"))),
                              engine=[None, "numpy", "flox"][i % 3])
                     if i % 2 == 0:
                         ch = []
                         for d, s in enumerate(ashape):
-                            ch.append([1] * s if (i + d) % 3 == 0 else ([1, s - 1] if s > 1 and (i + d) % 3 == 1 else [s]))
+                            ch.append([s] if i % 8 == 0 else ([1] * s if (i + d) % 3 == 0 else ([1, s - 1] if s > 1 and (i + d) % 3 == 1 else [s])))
                         c["chunks"] = ch
                         c["method"] = [None, "map-reduce"][(i // 2) % 2]
                     cases.append(c)
